@@ -32,7 +32,8 @@ macro "c07_unfold" "[" ls:Lean.Parser.Tactic.simpLemma,* "]" : tactic =>
       sameObject_unwrapped_right, $ls,*])
 
 macro "c07_crunch" : tactic =>
-  `(tactic| (simp [Except.map, ord4Test, V.ofBool, V.fresh, truthy, evalOutcome, relOutcome, notR] <;> try rfl))
+  `(tactic| (simp [Except.map, ord4Test, V.ofBool, V.fresh, truthy, evalOutcome, relOutcome, notR, sameObject, pyIs,
+      V.unwrapped] <;> try rfl))
 
 /-- Unfold the condition and run `t`; when that does not go through, first split on whether each
     operand is a proxy (needed exactly by the conditions that look at `is_sandboxed`). -/
@@ -133,7 +134,7 @@ theorem c07_assert_length_equal : Correct "assert_length_equal" cond_assert_leng
   cases h : pyLen c.left.v with
   | error e => cases e <;> c07_crunch
   | ok n =>
-    c07_unfold [Except.map]
+    c07_unfold [Except.map, pyEq_comm_int]
     cases h2 : pyEq (.int n) c.right.v <;> c07_crunch
 
 theorem c07_assert_length_not_equal : Correct "assert_length_not_equal" cond_assert_length_not_equal := by
@@ -142,7 +143,7 @@ theorem c07_assert_length_not_equal : Correct "assert_length_not_equal" cond_ass
   cases h : pyLen c.left.v with
   | error e => cases e <;> c07_crunch
   | ok n =>
-    c07_unfold [Except.map]
+    c07_unfold [Except.map, pyEq_comm_int]
     cases h2 : pyEq (.int n) c.right.v <;> c07_crunch
 
 theorem c07_assert_length_less : Correct "assert_length_less" cond_assert_length_less := by
